@@ -236,6 +236,46 @@ pub fn main(tier: Tier, seed: u64) -> i32 {
         Ok(p) => cases.extend(p),
         Err(e) => rep.machinery(e),
     }
+    // commit-then-open chains: the commitment is recomputed for the altered opening, so the commitment
+    // check passes and the *content* check behind it has to catch the lie
+    {
+        use crate::schema::{Val, decode_msg, encode_vec};
+        for (ci, cfg) in cfgs.iter().enumerate() {
+            let sent: Vec<(usize, &crate::exec::MsgRec)> = cfg.honest.msgs.iter().enumerate().filter(|(_, m)| m.from == cfg.corrupted).collect();
+            for (oi, om) in sent.iter().filter(|(_, m)| m.label == "fashare di_bi" || m.label == "flaand hash") {
+                let commit_label = if om.label == "fashare di_bi" { "fashare comm" } else { "flaand comm" };
+                let Some((cmi, cm)) = sent.iter().find(|(_, m)| m.label == commit_label && m.to == om.to && m.ord == om.ord) else { continue };
+                let (Ok(Val::Vec(comm)), Ok(Val::Vec(open))) = (decode_msg(commit_label, &cm.bytes), decode_msg(&om.label, &om.bytes)) else { continue };
+                let idxs: Vec<usize> = if open.len() <= 3 { (0..open.len()).collect() } else { vec![0, open.len() / 2, open.len() - 1] };
+                for r in idxs {
+                    let Val::U128(v) = open[r] else { continue };
+                    let v2 = v ^ 1;
+                    let h = Val::Raw(blake3::hash(&v2.to_be_bytes()).as_bytes().to_vec());
+                    let mut comm2 = comm.clone();
+                    match &mut comm2[r] {
+                        Val::Tup(t) => {
+                            t[0] = h.clone();
+                            t[1] = h.clone();
+                        }
+                        x => *x = h.clone(),
+                    }
+                    let mut open2 = open.clone();
+                    open2[r] = Val::U128(v2);
+                    let mk = |detail: String, bytes: Vec<u8>| crate::adv::MsgMut { class: "struct:chain".into(), detail, bytes: Arc::new(bytes), malformed: false, path: Some(vec![r]), node: Some(crate::schema::NodeMut::XorLow), dynamic: None };
+                    cases.push(crate::campaign::FCase {
+                        cfg: ci,
+                        msgs: vec![*cmi, *oi],
+                        muts: vec![mk(format!("commitment #{r} recomputed for the altered opening"), encode_vec(&Val::Vec(comm2))), mk(format!("opening #{r} altered (low bit)"), encode_vec(&Val::Vec(open2)))],
+                        label: format!("{commit_label}+{}", om.label),
+                        field: format!("{commit_label}+{}[chain]", om.label),
+                        rule: crate::campaign::Rule::Always,
+                        to_all: false,
+                        desc: format!("{}: {:?}/{:?} #{} {}->{}: opening #{r} altered and its commitment recomputed", cfg.name, commit_label, om.label, om.ord, om.from, om.to),
+                    });
+                }
+            }
+        }
+    }
     let j = judge_detection(&mut rep, &cfgs, &cases, "C04");
     // tap-based persistent variants
     let taps: Vec<(&str, Vec<&str>)> = vec![
